@@ -56,9 +56,12 @@ RawExtraOK ==
   /\ "filter" \in DOMAIN tables
   /\ DOMAIN tables["filter"] = (IF T.parts.xchain THEN {"INPUT", "c9"} ELSE {"INPUT"})
   /\ (T.parts.xchain => tables["filter"]["c9"].rules = <<[id |-> "tcp8080", act |-> "ACCEPT"]>>)
-  /\ DOMAIN tables = (IF T.parts.xtable THEN {"filter", "mangle"} ELSE {"filter"})
-  /\ (T.parts.xtable => DOMAIN tables["mangle"] = {"PREROUTING"}
-                         /\ tables["mangle"]["PREROUTING"].rules = <<[id |-> "markhex", act |-> "MARK"]>>)
+  /\ DOMAIN tables = (IF T.parts.xtable # "none" THEN {"filter", "mangle"} ELSE {"filter"})
+  \* raw rules of the second table are not behind [APPEND]: they precede the Netspoc rules of that chain
+  /\ (T.parts.xtable # "none" => DOMAIN tables["mangle"] = {"PREROUTING"}
+        /\ tables["mangle"]["PREROUTING"].rules = (IF T.parts.xtable = "both"
+                                                    THEN <<[id |-> "markhex", act |-> "MARK"], [id |-> "mark", act |-> "MARK"]>>
+                                                    ELSE <<[id |-> "markhex", act |-> "MARK"]>>))
 MergeOK == Admissible(MergedChain, T.parts.v4, T.parts.v6, T.parts.pre, T.parts.app) /\ RawExtraOK
 
 Post(j) == routes = RoutesOf(j) /\ tables = TablesOf(j)
